@@ -344,7 +344,9 @@ def oracle_run(c):
                 return (("float32 " if c["cfg"].get("f32") else "") + f"engine run, chain {c['chain']}, kernel {c['kernel']} (keys {[k for k, _ in c['keys']]}): after slow epoch "
                         f"#{n} entry {i} of the inverse mass matrix is {b}, the regularised sample (co)variance of flat "
                         f"coordinate {i} = {who} over that epoch's chain is {a}  [kernel sequence {[k['cls'] for k in c['cfg']['kernels']]}, "
-                        f"epochs {c['cfg']['epochs']}]")
+                        f"epochs [type, duration, thinning] {c['cfg']['epochs']}, engine constructed with the first "
+                        f"{c['cfg'].get('built', len(c['cfg']['epochs']))} of them, the others appended with append_epoch and run with "
+                        f"sample_next_epoch; the history of a thinned epoch is its {len(h[0][2]) if h else 0} recorded samples]")
         else:
             if mat_mismatch(c["diag"], prev, obs, c["cfg"].get("f32", False)):
                 return f"inverse mass matrix changed after non-slow adaptation epoch {n}"
@@ -592,6 +594,12 @@ def generate(ctx):
             sl = [tuple(e) for e in c["cfg"]["epochs"] if e[0] == "slow"]
             if len(set(sl)) < len(sl):
                 ctx.hist("engine-run: slow epochs with identical configs")
+            nb = c["cfg"].get("built", len(c["cfg"]["epochs"]))
+            if any(e[0] == "slow" for e in c["cfg"]["epochs"][nb:]) and not any(e[0] == "slow" for e in c["cfg"]["epochs"][:nb]):
+                ctx.hist("engine-run: constructed without slow epoch, slow epochs appended after sampling")
+            for e in c["cfg"]["epochs"]:
+                if e[0] == "slow" and ep3(e)[2] > 1:
+                    ctx.hist(f"engine-run: slow epoch with thinning {ep3(e)[2]}")
         else:
             ctx.hist("engine-model case (kernel sequence x schedule, one chain)")
     distinct = {json.dumps([c.get("keys", c.get("kerns")), c.get("diag"), c.get("level"), c.get("etype"), c.get("hist", c.get("obs"))], default=str) for c in cases}
@@ -635,13 +643,29 @@ def run_configs(rnd, quick):
                     {"cls": "nuts", "keys": [["zeta", []], ["alpha", [2]]], "diag": True},
                     {"cls": "gibbs", "keys": [["g", []]]},
                     {"cls": "hmc", "keys": [["b", [2]], ["B", []]], "diag": False}],
-        "epochs": [["fast", 8], ["slow", 16], ["slow", 16], ["fast", 8], ["posterior", 8]],
+        # constructed with [Init, Fast 8] only; everything else is appended after sampling: two THINNED slow epochs with identical
+        # configs (8 recorded samples each), an unthinned one, a fast one, the posterior epoch
+        "epochs": [["fast", 8, 1], ["slow", 16, 2], ["slow", 16, 2], ["slow", 16, 1], ["fast", 8, 1], ["posterior", 8, 1]],
+        "built": 1,
     }
     cfgs = [dict(base, f32=True,
                  loc={"zeta": 2000.0, "alpha": [0.0, -300.0], "b": [0.0, 1000.0], "B": 0.0, "r": 0.0, "g": 0.0},
                  sd={"zeta": 0.5, "alpha": [1.0, 0.125], "b": [2.0, 0.25], "B": 1.0, "r": 1.0, "g": 1.0})]
     if not quick:
         cfgs.append(base)            # the same strata in float64, zero-centred
+        cfgs.append({                # thinning 3 and 5, appended after a constructed [Init, Fast, Slow] schedule has been sampled
+            "seed": 15, "chains": 2,
+            "kernels": [{"cls": "nuts", "keys": [["zeta", []], ["alpha", [2]]], "diag": True},
+                        {"cls": "rw", "keys": [["r", []]]},
+                        {"cls": "hmc", "keys": [["b", []], ["B", []]], "diag": False}],
+            "epochs": [["fast", 15, 1], ["slow", 30, 3], ["slow", 30, 5], ["slow", 30, 5], ["fast", 15, 3], ["posterior", 15, 1]],
+            "built": 2,
+        })
+        cfgs.append({                # all epochs given to the builder, thinned warm-up as produced by stan_epochs(thinning_warmup=...)
+            "seed": 16, "chains": 2,
+            "kernels": [{"cls": "hmc", "keys": [["x9", []], ["x10", [2]]], "diag": True}],
+            "epochs": [["fast", 10, 2], ["slow", 20, 2], ["slow", 40, 5], ["fast", 10, 2], ["posterior", 10, 1]],
+        })
     if not quick:
         cfgs.append({
             "seed": 12, "chains": 2,
@@ -683,8 +707,14 @@ def observe_run(cfg):
         return _observe_run(cfg, coords)
 
 
+def ep3(e):
+    """[type, duration] or [type, duration, thinning]"""
+    return e[0], e[1], (e[2] if len(e) > 2 else 1)
+
+
 def _observe_run(cfg, coords_of_kernel):
     L = lib()
+    EPS = [ep3(e) for e in cfg["epochs"]]
     jax, jnp, np, gs = L["jax"], L["jnp"], L["np"], L["gs"]
     E, EC = L["EpochType"], L["EpochConfig"]
     rnd = random.Random(cfg["seed"])
@@ -724,18 +754,24 @@ def _observe_run(cfg, coords_of_kernel):
             kern = K(names, mm_diag=k["diag"])
         kerns.append(kern)
         b.add_kernel(kern)
-    eps = [EC(E.INITIAL_VALUES, 1, 1, None)] + [EC(E(ETYPES[t]), d, 1, None) for t, d in cfg["epochs"]]
-    b.set_epochs(eps)
+    eps = [EC(E.INITIAL_VALUES, 1, 1, None)] + [EC(E(ETYPES[t]), d, th, None) for t, d, th in EPS]
+    # "built": how many epochs (after INITIAL_VALUES) the engine is constructed with; the remaining ones are appended one at a
+    # time with Engine.append_epoch and run with sample_next_epoch after the constructed schedule has been sampled
+    n0 = cfg.get("built", len(EPS))
+    b.set_epochs(eps[:1 + n0])
     b.store_kernel_states = True
     b.show_progress = False
     eng = b.build()
     eng.sample_all_epochs()
+    for e in eps[1 + n0:]:
+        eng.append_epoch(e)
+        eng.sample_next_epoch()
     res = eng.get_results()
     pc, kc = res.positions, res.kernel_states.unwrap()
     out = []
     ismm = [k["cls"] in ("nuts", "hmc") for k in cfg["kernels"]]
-    adapt = [i for i, (t, _) in enumerate(cfg["epochs"]) if t in ("fast", "slow")]
-    nep = len(cfg["epochs"])
+    adapt = [i for i, (t, _, _) in enumerate(EPS) if t in ("fast", "slow")]
+    nep = len(EPS)
 
     def chain_of(i, ch):
         chain = pc.combine([i + 1]).unwrap()
@@ -751,7 +787,7 @@ def _observe_run(cfg, coords_of_kernel):
             assert str(kc.combine([i]).unwrap()[ki].inverse_mass_matrix.dtype) == "float32", "float32 run produced another dtype"
         return finite_fracs(np.asarray(kc.combine([i]).unwrap()[ki].inverse_mass_matrix)[ch, 0])
 
-    hists = {(i, ch): chain_of(i, ch) for i, (t, _) in enumerate(cfg["epochs"]) if t == "slow" for ch in range(cfg["chains"])}
+    hists = {(i, ch): chain_of(i, ch) for i, (t, _, _) in enumerate(EPS) if t == "slow" for ch in range(cfg["chains"])}
     for ki, k in enumerate(cfg["kernels"]):
         if not ismm[ki]:
             continue
@@ -759,7 +795,7 @@ def _observe_run(cfg, coords_of_kernel):
         for ch in range(cfg["chains"]):
             epochs, obs = [], []
             for i in adapt:
-                t, d = cfg["epochs"][i]
+                t, d, _th = EPS[i]
                 epochs.append([True, hists[(i, ch)]] if t == "slow" else [False, None])
                 obs.append(imm_at(i + 2, ki, ch))
             out.append({"kind": "run", "cfg": cfg, "chain": ch, "kernel": ki, "cls": k["cls"], "keys": k["keys"], "diag": k["diag"],
@@ -767,7 +803,7 @@ def _observe_run(cfg, coords_of_kernel):
     # the whole kernel sequence and schedule of one chain, for the engine model (all epochs but the last)
     for ch in range(cfg["chains"]):
         kerns_ = [[k["cls"], k["keys"], k.get("diag"), imm_at(1, ki, ch) if ismm[ki] else None] for ki, k in enumerate(cfg["kernels"])]
-        eps_ = [[t, d, hists[(i, ch)] if t == "slow" else []] for i, (t, d) in enumerate(cfg["epochs"][:-1])]
+        eps_ = [[t, d, hists[(i, ch)] if t == "slow" else [], th] for i, (t, d, th) in enumerate(EPS[:-1])]
         obs_ = [[imm_at(i + 2, ki, ch) if ismm[ki] else None for ki in range(len(kerns_))] for i in range(nep - 1)]
         out.append({"kind": "eng", "cfg": cfg, "chain": ch, "kerns": kerns_, "epochs": eps_, "obs": obs_})
     return out
@@ -829,7 +865,7 @@ ETY = {"fast": "EFast", "slow": "ESlow", "burnin": "EBurnin", "posterior": "EPos
 def eng_lit(c):
     ks = lst(f"(KMM {blit(d)} {keys_lit(keys)}, {mm_lit(d, init)})" if cls in ("nuts", "hmc") else "(KOther, Diag [])"
              for cls, keys, d, init in c["kerns"])
-    eps = lst(f"(mkE {ETY[t]} {natlit(d)} 1%nat, {hist_lit(h)})" for t, d, h in c["epochs"])
+    eps = lst(f"(mkE {ETY[e[0]]} {natlit(e[1])} {natlit(e[3] if len(e) > 3 else 1)}, {hist_lit(e[2])})" for e in c["epochs"])
     obs = lst(lst(mm_lit(kk[2], o) if kk[0] in ("nuts", "hmc") else "(Diag [])" for kk, o in zip(c["kerns"], row)) for row in c["obs"])
     return f"(mkEng {ks} {eps} {obs})"
 
